@@ -516,6 +516,7 @@ class Track:
                 # Caveat: Things will go horribly wrong for an array of amp/gate event
                 # shorter than the number of notes.
                 #----------------------------------------------------------------------
+                played = False
                 for index, note in enumerate(notes):
                     amp = event.amplitude[index] if isinstance(event.amplitude, tuple) else event.amplitude
                     channel = event.channel[index] if isinstance(event.channel, tuple) else event.channel
@@ -524,12 +525,13 @@ class Track:
 
                     if (amp is not None and amp > 0) and (gate is not None and gate > 0):
                         self.output_device.note_on(note, amp, channel)
+                        played = True
 
                         note_dur = event.duration * gate
                         note_off_time = self.current_time + note_dur
                         note_off = NoteOffEvent(note_off_time, note, channel)
                         self.note_offs.append(note_off)
-                if event.pitchbend is not None:
+                if event.pitchbend is not None and played:
                     self.output_device.pitch_bend(event.pitchbend, channel)
         else:
             raise InvalidEventException("Invalid event type: %s" % event.type)
